@@ -126,10 +126,14 @@ def run(ctx, spec, out):
         h.both({"op": "clock", "seconds": T0})
         h.both({"op": "world", "world": {"config": cfg, "backends": wbs}})
         for pid in ids:
-            kind = rng.choice(["up", "up", "up", "down", "logfail", "warning"])
+            kind = rng.choice(["up", "up", "up", "down", "logfail", "warning", "pending"])
             plan[pid] = kind
             if kind == "down":
                 h.both({"op": "mode", "backend": pid, "mode": "refuse"})
+            if kind == "pending":
+                # not synchronised yet while its socket answers already (start of the daemon, restart of the core): it is
+                # not asked and is named in failed
+                continue
             h.both({"op": "init", "peer": pid})
             if kind == "warning":
                 h.both({"op": "advance", "seconds": 6})
